@@ -77,13 +77,19 @@ func checkerConstruction(c *Check, a *Anchors, rule string) {
 			}
 			n++
 			kind := dryArgKind(info, fb, arg)
+			if kind == "param" && fb.Root().Pkg.PkgPath == PkgTask && fb.Root().Obj != nil {
+				// an options helper of package task: the flag it hands down must itself be acceptable at each of its call sites
+				if bad := helperDryCallers(c, fb.Root(), arg); bad != "" {
+					kind = "param bound to " + bad
+				}
+			}
 			ok = kind == "true" || kind == "Executor.Dry" || kind == "param" || kind == "CheckerConfig.dry"
 			key := ordinal(ord, calleeName(obj)+"@"+fnDisplay(fb.Root()))
 			c.Decide(ok, rule, key, call.Pos(), "dry flag is "+kind, "the dry flag passed to "+calleeName(obj)+" is `"+exprStr(arg)+"`, which is not the executor's Dry / true / the flag handed down: dry and query modes would write fingerprint state")
 			return true
 		})
 	}
-	c.Floor(rule, n, 8)
+	c.Floor(rule, n, 5)
 	// constructors store their parameter
 	for _, nm := range []string{"NewTimestampChecker", "NewChecksumChecker"} {
 		fb := c.P.Func(PkgFingerprint, "", nm)
@@ -355,12 +361,7 @@ func queryNeverRecords(c *Check, a *Anchors, rule string) {
 				return true
 			}
 			n++
-			kind := "absent (defaults to false)"
-			for _, arg := range call.Args {
-				if opt, ok := ast.Unparen(arg).(*ast.CallExpr); ok && isFunc(callee(info, opt), PkgFingerprint, "", "WithDry") {
-					kind = dryArgKind(info, fb, opt.Args[0])
-				}
-			}
+			kind := dryOptionKind(c, info, fb, call)
 			c.Decide(kind == "true", rule, ordinal(ord, "IsTaskUpToDate@"+fnDisplay(fb)), call.Pos(), "WithDry(true)",
 				"the up-to-date query of a listing passes WithDry("+kind+"): without --dry it records the fingerprint of every listed task, so a later normal run skips tasks whose commands never ran")
 			return true
@@ -405,7 +406,7 @@ func methodResolution(c *Check, a *Anchors, rule string) {
 		}
 		c.Fn(fb)
 		var pe *PathEnum
-		pe = &PathEnum{Fn: fn, MaxRevisit: 0, NoInline: true, EventR: func(in ssa.Instruction, resolve func(ssa.Value) ssa.Value) (string, string) {
+		pe = &PathEnum{Fn: fn, MaxRevisit: 0, EventR: func(in ssa.Instruction, resolve func(ssa.Value) ssa.Value) (string, string) {
 			call, ok := in.(*ssa.Call)
 			if !ok {
 				return "", ""
@@ -450,5 +451,99 @@ func methodResolution(c *Check, a *Anchors, rule string) {
 		n++
 		c.Decide(len(bad) == 0, rule, "method@"+fnDisplay(fb), fb.Body.Pos(), fmt.Sprintf("task method wins on all %d path(s)", seen), firstN(bad, 2))
 	}
-	c.Floor(rule, n, 4)
+	c.Floor(rule, n, 2)
+}
+
+
+// dryOptionKind classifies the dry flag an IsTaskUpToDate call is given: a direct fingerprint.WithDry(x) argument, or one that
+// an options helper of the same package builds (WithDry(<helper parameter>) is mapped back to the argument at this call site).
+func dryOptionKind(c *Check, info *types.Info, fb *FuncBody, call *ast.CallExpr) string {
+	kind := "absent (defaults to false)"
+	for _, arg := range call.Args {
+		opt, ok := ast.Unparen(arg).(*ast.CallExpr)
+		if !ok {
+			continue
+		}
+		if isFunc(callee(info, opt), PkgFingerprint, "", "WithDry") {
+			kind = dryArgKind(info, fb, opt.Args[0])
+			continue
+		}
+		fn, ok := callee(info, opt).(*types.Func)
+		if !ok {
+			continue
+		}
+		h := c.P.DeclOf(fn)
+		if h == nil || h.Pkg != fb.Pkg {
+			continue
+		}
+		hinfo := h.Info()
+		// the LAST WithDry in the helper's option list wins (options are applied in order)
+		inspectDeep(h.Body, func(nd ast.Node) bool {
+			wc, ok := nd.(*ast.CallExpr)
+			if !ok || !isFunc(callee(hinfo, wc), PkgFingerprint, "", "WithDry") {
+				return true
+			}
+			k := dryArgKind(hinfo, h, wc.Args[0])
+			if k == "param" {
+				if i := paramIndex(hinfo, h, varOf(hinfo, wc.Args[0])); i >= 0 && i < len(opt.Args) {
+					k = dryArgKind(info, fb, opt.Args[i])
+				} else if i >= 0 {
+					// a variadic options parameter: extra options given by the caller are appended before / after; judged below
+					k = "param"
+				}
+			}
+			kind = k
+			return true
+		})
+		// options passed INTO the helper by the caller (fingerprintOptions(t, WithDry(true))): they count only when the helper
+		// appends its own defaults before them; a helper that appends its defaults after them overrides them
+		for _, ha := range opt.Args {
+			if hc, ok := ast.Unparen(ha).(*ast.CallExpr); ok && isFunc(callee(info, hc), PkgFingerprint, "", "WithDry") {
+				overridden := false
+				inspectDeep(h.Body, func(nd ast.Node) bool {
+					ac, ok := nd.(*ast.CallExpr)
+					if !ok || !isBuiltin(hinfo, ac, "append") || len(ac.Args) < 2 {
+						return true
+					}
+					if v := varOf(hinfo, ac.Args[0]); v != nil && isParamOf(hinfo, h, v) {
+						for _, later := range ac.Args[1:] {
+							if lc, ok := ast.Unparen(later).(*ast.CallExpr); ok && isFunc(callee(hinfo, lc), PkgFingerprint, "", "WithDry") {
+								overridden = true
+							}
+						}
+					}
+					return true
+				})
+				if !overridden {
+					kind = dryArgKind(info, fb, hc.Args[0])
+				}
+			}
+		}
+	}
+	return kind
+}
+
+// helperDryCallers: every call site of the helper binds the parameter `arg` names to an acceptable dry value; returns the
+// first offending binding.
+func helperDryCallers(c *Check, h *FuncBody, arg ast.Expr) string {
+	hinfo := h.Info()
+	i := paramIndex(hinfo, h, varOf(hinfo, arg))
+	if i < 0 {
+		return ""
+	}
+	for _, cb := range c.P.Bodies() {
+		if cb.Pkg != h.Pkg {
+			continue
+		}
+		info := cb.Info()
+		for _, call := range callsIn(cb, false) {
+			if fn, ok := callee(info, call).(*types.Func); ok && fn == h.Obj && i < len(call.Args) {
+				k := dryArgKind(info, cb, call.Args[i])
+				if k != "true" && k != "Executor.Dry" && k != "param" && k != "CheckerConfig.dry" {
+					return "`" + exprStr(call.Args[i]) + "` in " + fnDisplay(cb.Root())
+				}
+			}
+		}
+	}
+	return ""
 }
